@@ -470,7 +470,47 @@ def icpert_obligations():
     finally:
         for k, v in saved.items():
             setattr(eds, k, v)
-    return obs, pre
+    # isotropy on an ARBITRARY background: a(t), fL(t), Omega_m(t), H(t) are independent positive unknowns (so nothing that
+    # happens to coincide on EdS, e.g. fL = Omega_m = 1, can hide); the perturbed FLRW metric and extrinsic curvature built
+    # from Rc'(x, y, z) = Rc(z, x, y) are those built from Rc with the axes permuted the same way, all 9 entries each
+    class Bg:
+        def a(self, t):
+            return sym('bg_a')
+
+        def fL(self, t):
+            return sym('bg_fL')
+
+        def Omega_m(self, t):
+            return sym('bg_Om')
+
+        def Hprop(self, t):
+            return sym('bg_H')
+    pre_bg = [tm.lt(tm.ZERO, sym(n).t) for n in ('bg_a', 'bg_fL', 'bg_Om', 'bg_H')]
+    with patched(modules=('aurel.solutions.ICPertFLRW', 'aurel.maths')):
+        with use_ctx(Ctx(pre=pre_bg, fork=False, decide_timeout=30)):
+            order = 3
+            t = Jet.coordinate(0, sym('t'), 4, order)
+            rc = Jet.fresh('Rc', 4, order)
+            rc = Jet(4, order, {k: (tm.ZERO if 0 in k else v) for k, v in rc.c.items()})
+            pi = {0: 0, 1: 2, 2: 3, 3: 1}              # d_x Rc' = d_y Rc, d_y Rc' = d_z Rc, d_z Rc' = d_x Rc
+            rcp = Jet(4, order, {k: rc.c[tuple(sorted(pi[a] for a in k))] for k in rc.c})
+            fd = JetFD(4)
+
+            def cellj(j):
+                arr = np.empty((1, 1, 1), dtype=object)
+                arr[0, 0, 0] = j
+                return arr
+            bg = Bg()
+            for fn_name, fn in (('gammadown3', icp.gammadown3), ('Kdown3', icp.Kdown3)):
+                A = gr.ungrid(fn(bg, fd, t, cellj(rc)))
+                B = gr.ungrid(fn(bg, fd, t, cellj(rcp)))
+                for i in range(3):
+                    for j in range(3):
+                        pi_, pj_ = pi[i + 1] - 1, pi[j + 1] - 1
+                        obs.append(Ob(f'ICPertFLRW(any background): {fn_name}[{i},{j}] of Rc(z,x,y) == {fn_name}[{pi_},{pj_}] of Rc',
+                                      T0(B[i, j]), T0(A[pi_, pj_]), pre + pre_bg,
+                                      group=f'ICPertFLRW on an arbitrary background: {fn_name} is isotropic (axes permuted with Rc)'))
+    return obs, pre + pre_bg
 
 
 def icpert_replay(name):
@@ -479,6 +519,8 @@ def icpert_replay(name):
     from aurel.finitedifference import FiniteDifference
     icp = importlib.import_module('aurel.solutions.ICPertFLRW')
     eds = importlib.import_module('aurel.solutions.EdS')
+    if 'any background' in name:
+        return icpert_replay_isotropy(name)
     i, j = map(int, re.search(r'\[(\d),(\d)\]', name).groups())
     param = {'xmin': 0.0, 'ymin': 0.0, 'zmin': 0.0, 'dx': 0.05, 'dy': 0.05, 'dz': 0.05, 'Nx': 16, 'Ny': 16, 'Nz': 16}
     fd = FiniteDifference(param, verbose=False, fd_order=6, boundary='periodic')
@@ -493,6 +535,28 @@ def icpert_replay(name):
     d = float(np.max(np.abs(K[i, j] + dg[i, j] / 2)))
     sc = float(np.max(np.abs(dg))) + 1e-300
     return dict(max_abs_difference=d, scale=sc, relative=d / sc, reproduces=d / sc > 1e-7)
+
+
+def icpert_replay_isotropy(name):
+    """float replay of an isotropy obligation: the real module on the real LCDM background at a late time, cubic periodic grid,
+    non-separable Rc and its axis-permuted copy"""
+    import re
+    from aurel.finitedifference import FiniteDifference
+    icp = importlib.import_module('aurel.solutions.ICPertFLRW')
+    lcdm = importlib.import_module('aurel.solutions.LCDM')
+    fn = icp.Kdown3 if 'Kdown3' in name else icp.gammadown3
+    (i, j), (pi_, pj_) = [tuple(map(int, m)) for m in re.findall(r'\[(\d),(\d)\]', name)[:2]]
+    param = {'xmin': 0.0, 'ymin': 0.0, 'zmin': 0.0, 'dx': 0.05, 'dy': 0.05, 'dz': 0.05, 'Nx': 16, 'Ny': 16, 'Nz': 16}
+    fd = FiniteDifference(param, verbose=False, fd_order=6, boundary='periodic')
+    x, y, z = fd.cartesian_coords
+    L = 0.8
+    Rc = 1e-2 * np.sin(2 * np.pi * (x + 2 * y) / L) * np.cos(2 * np.pi * (z - x) / L) + 5e-3 * np.sin(2 * np.pi * (y + z) / L)
+    Rcp = np.ascontiguousarray(np.transpose(Rc, (1, 2, 0)))          # Rc'(x, y, z) = Rc(z, x, y)
+    t = 3.0 * float(lcdm.t_today_EdS)
+    A, B = fn(lcdm, fd, t, Rc), fn(lcdm, fd, t, Rcp)
+    d = float(np.max(np.abs(B[i, j] - np.transpose(A[pi_, pj_], (1, 2, 0)))))
+    sc = float(np.max(np.abs(A[pi_, pj_]))) + 1e-300
+    return dict(max_abs_difference=d, scale=sc, relative=d / sc, reproduces=d / sc > 1e-9)
 
 
 def generator_rewrite(modname, obs, pre):
